@@ -253,6 +253,13 @@ func directedScenarios() []directedT {
 				{Kind: "release", K: 2, D: 1}, {Kind: "cmd", Arg: "isready"}},
 			rules: []sched.Rule{{Point: "uci.fwd.closed", Occ: 1, Until: "uci.go.activated", UntilOcc: 2, Timeout: h}},
 		},
+		{ // a new position arrives while the search is running: its forwarder finishes while the loop is still inside Halt
+			name: "supersede-while-unwinding",
+			steps: []stepT{{Kind: "cmd", Arg: "position startpos"}, {Kind: "cmd", Arg: "go depth 5"}, {Kind: "release", K: 1, D: 1},
+				{Kind: "cmd", Arg: "position startpos moves e2e4"}, {Kind: "cmd", Arg: "isready"},
+				{Kind: "cmd", Arg: "go infinite"}, {Kind: "release", K: 2, D: 1}, {Kind: "cmd", Arg: "stop"}, {Kind: "cmd", Arg: "isready"}},
+			rules: []sched.Rule{{Point: "engine.halt.end", Occ: 1, Until: "uci.fwd.exit", UntilOcc: 1, Timeout: h}},
+		},
 		{ // quit while a completion is on its way
 			name: "quit-during-completion",
 			steps: []stepT{{Kind: "cmd", Arg: "position startpos"}, {Kind: "cmd", Arg: "go depth 1"}, {Kind: "release", K: 1, D: 1},
